@@ -383,27 +383,40 @@ def grids(quick):
     """List of grid descriptions; each expands to shards (one shard = all tag lengths of one
     (mode, cipher, key length, nonce length, AAD shape, message length, value variant))."""
     A = (0, 1, 15, 16, 17, 33)
+    Aq = (0, 1, 16, 17, 33)
     Mq = (0, 1, 16, 17)
     Mt = (0, 1, 15, 16, 17, 32, 33)
     A3 = (0, 1, 7, 8, 9, 17)
+    A3q = (0, 1, 8, 9)
     M3q = (0, 1, 8, 9)
     M3t = (0, 1, 7, 8, 9, 16, 17)
+    NG = (1, 8, 12, 13, 16, 17, 32)
+    NC = (7, 8, 9, 10, 11, 12, 13)
+    NE = (1, 8, 16, 17)
+    NO = tuple(range(1, 16))
+    TGq, TCq, TEq, TOq = (4, 12, 15, 16), (4, 12, 14, 16), (2, 12, 15, 16), (8, 12, 15, 16)
     g = []
     if quick:
-        g.append(("GCM", "AES", (16,), (1, 8, 12, 13, 16, 17, 32), (4, 12, 15, 16), A, Mq))
-        g.append(("CCM", "AES", (16,), (7, 8, 9, 10, 11, 12, 13), (4, 12, 14, 16), A, Mq))
-        g.append(("EAX", "AES", (16,), (1, 8, 16, 17), (2, 12, 15, 16), A, Mq))
-        g.append(("EAX", "DES3", (16,), (1, 8, 9), (2, 4, 7, 8), A3, M3q))
-        g.append(("OCB", "AES", (16,), tuple(range(1, 16)), (8, 12, 15, 16), A, Mq))
+        g.append(("GCM", "AES", (16,), NG, TGq, Aq, Mq))
+        g.append(("CCM", "AES", (16,), NC, TCq, Aq, Mq))
+        g.append(("EAX", "AES", (16,), NE, TEq, Aq, Mq))
+        g.append(("EAX", "DES3", (16,), (1, 8, 9), (2, 7, 8), A3q, M3q))
+        g.append(("OCB", "AES", (16,), (1, 8, 12, 14, 15), TOq, Aq, Mq))
         g.append(("SIV", "AES", (32,), (None, 1, 12, 16), (16,), SIV_AAD_SHAPES, Mq))
-        g.append(("CHACHA", "-", (32,), (8, 12, 24), (16,), A, Mq + (64, 65)))
+        g.append(("CHACHA", "-", (32,), (8, 12, 24), (16,), Aq, Mq + (64, 65)))
     else:
-        K = (16, 24, 32)
-        g.append(("GCM", "AES", K, (1, 8, 12, 13, 16, 17, 32), LEGAL_T["GCM"], A, Mt))
-        g.append(("CCM", "AES", K, (7, 8, 9, 10, 11, 12, 13), LEGAL_T["CCM"], A, Mt))
-        g.append(("EAX", "AES", K, (1, 8, 16, 17), LEGAL_T["EAX"], A, Mt))
-        g.append(("EAX", "DES3", (16, 24), (1, 8, 9), LEGAL_T["EAX3"], A3, M3t))
-        g.append(("OCB", "AES", K, tuple(range(1, 16)), LEGAL_T["OCB"], A, Mt))
+        # every legal tag length on AES-128; on AES-192/256 (which differ from AES-128 only inside the
+        # block cipher) the tag lengths {min, 12, 15|14, max}
+        g.append(("GCM", "AES", (16,), NG, LEGAL_T["GCM"], A, Mt))
+        g.append(("GCM", "AES", (24, 32), NG, TGq, A, Mt))
+        g.append(("CCM", "AES", (16,), NC, LEGAL_T["CCM"], A, Mt))
+        g.append(("CCM", "AES", (24, 32), NC, TCq, A, Mt))
+        g.append(("EAX", "AES", (16,), NE, LEGAL_T["EAX"], A, Mt))
+        g.append(("EAX", "AES", (24, 32), NE, TEq, A, Mt))
+        g.append(("EAX", "DES3", (16,), (1, 8, 9), LEGAL_T["EAX3"], A3, M3t))
+        g.append(("EAX", "DES3", (24,), (1, 8, 9), (2, 4, 7, 8), A3, M3t))
+        g.append(("OCB", "AES", (16,), NO, LEGAL_T["OCB"], A, Mt))
+        g.append(("OCB", "AES", (24, 32), NO, TOq, A, Mt))
         g.append(("SIV", "AES", (32, 48, 64), (None, 1, 12, 16), (16,), SIV_AAD_SHAPES, Mt))
         g.append(("CHACHA", "-", (32,), (8, 12, 24), (16,), A, Mt + (63, 64, 65)))
     return g
@@ -414,6 +427,7 @@ DEFAULT_NONCE = {"GCM": 12, "CCM": 11, "EAX": 16, "OCB": 15, "SIV": None, "CHACH
 
 def aead_shards(quick):
     sh = []
+    done = set()
     for mode, ciph, klens, nlens, tlens, ashapes, mlens in grids(quick):
         for kl in klens:
             for nl in nlens:
@@ -421,6 +435,9 @@ def aead_shards(quick):
                     for m in mlens:
                         sh.append((mode, ciph, kl, nl, tuple(tlens), a, m, 0))
         # structured value variants (zero / ones / ascending) on a sub-grid
+        if (mode, ciph) in done:
+            continue
+        done.add((mode, ciph))
         dn = DEFAULT_NONCE[mode] if ciph != "DES3" else 8
         tl = tuple(sorted({tlens[0], tlens[-1]}))
         va = ashapes if not quick else (ashapes[0], ashapes[3])
@@ -1115,8 +1132,33 @@ def kw_shards(quick):
 
 # ---------------------------------------------------------------------------
 def _interleave(seq, n):
+    """seq is sorted heaviest first; deal it into n units of similar weight, each unit ordered
+    lightest first (so that the first violation a worker records per key is a small one)."""
     n = max(1, min(n, len(seq)))
-    return [seq[i::n] for i in range(n)]
+    return [seq[i::n][::-1] for i in range(n)]
+
+
+class _SmallestFirstAcc(Acc):
+    """Merge target that keeps, per violation key, the smallest recorded case (workers finish in
+    arbitrary order; DRIVER_GUIDE wants the simplest failing input reported)."""
+
+    @staticmethod
+    def _size(v):
+        import json
+        return len(json.dumps(v["case"]))
+
+    def merge(self, o):
+        mine = dict(self.viol)
+        Acc.merge(self, o)
+        for k, v in o.viol.items():
+            if k in mine and self._size(v) < self._size(mine[k]):
+                self.viol[k] = v
+        return self
+
+
+def _pmap(ctx, fn, shards):
+    from ..common import pmap
+    ctx.acc.merge(pmap(fn, shards, ctx.workers, _SmallestFirstAcc()))
 
 
 def run(ctx):
@@ -1135,11 +1177,11 @@ def run(ctx):
     sh.sort(key=lambda s: -((s[6] + (s[5] if isinstance(s[5], int) else sum(s[5])) + 20) * len(s[4])
                             * (3 if s[0] in ("EAX", "SIV") else 1)))
     units = _interleave(sh, max(64, ctx.workers * 12))
-    ctx.pmap(aead_worker, [(every, u) for u in units])
+    _pmap(ctx, aead_worker, [(every, u) for u in units])
     phases["aead"] = round(time.time() - t, 1)
     t = time.time()
     ks = kw_shards(q)
-    ctx.pmap(kw_worker, _interleave(ks, max(32, ctx.workers * 2)))
+    _pmap(ctx, kw_worker, _interleave(ks, max(32, ctx.workers * 2)))
     phases["kw"] = round(time.time() - t, 1)
 
     a = ctx.acc
